@@ -119,8 +119,28 @@ fn typed_conversions(rng: &mut Rng, n: u64) -> (u64, u64, String) {
     let mut first = String::new();
     for _ in 0..n {
         let port = port(rng) as u16;
-        let v4 = Ipv4Addr::from((rng.next() as u32).to_be_bytes());
-        let v6 = Ipv6Addr::from((((rng.next() as u128) << 64) | rng.next() as u128).to_be_bytes());
+        let v4 = match rng.below(8) {
+            0 => Ipv4Addr::new(0, 0, 0, 0),
+            1 => Ipv4Addr::new(255, 255, 255, 255),
+            2 => Ipv4Addr::new(127, 0, 0, rng.below(256) as u8),
+            3 => Ipv4Addr::new(224, 0, 0, rng.below(256) as u8),
+            _ => Ipv4Addr::from((rng.next() as u32).to_be_bytes()),
+        };
+        // the forms of an IPv6 address that other code likes to "normalise": IPv4-mapped, IPv4-compatible,
+        // NAT64, 6to4, loopback, unspecified, link-local, multicast — next to arbitrary ones
+        let o = v4.octets();
+        let w = [((o[0] as u16) << 8) | o[1] as u16, ((o[2] as u16) << 8) | o[3] as u16];
+        let v6 = match rng.below(12) {
+            0 => Ipv6Addr::new(0, 0, 0, 0, 0, 0xffff, w[0], w[1]),
+            1 => Ipv6Addr::new(0, 0, 0, 0, 0, 0, w[0], w[1]),
+            2 => Ipv6Addr::new(0x64, 0xff9b, 0, 0, 0, 0, w[0], w[1]),
+            3 => Ipv6Addr::new(0x2002, w[0], w[1], 0, 0, 0, 0, 1),
+            4 => Ipv6Addr::LOCALHOST,
+            5 => Ipv6Addr::UNSPECIFIED,
+            6 => Ipv6Addr::new(0xfe80, 0, 0, 0, rng.next() as u16, 0, 0, 1),
+            7 => Ipv6Addr::new(0xff02, 0, 0, 0, 0, 0, 0, rng.below(3) as u16),
+            _ => Ipv6Addr::from((((rng.next() as u128) << 64) | rng.next() as u128).to_be_bytes()),
+        };
         let a4 = SocketAddrV4::new(v4, port);
         let (flow, scope) = if rng.chance(1, 2) { (rng.next() as u32, rng.next() as u32) } else { (0, rng.below(4) as u32) };
         let a6 = SocketAddrV6::new(v6, port, flow, scope);
